@@ -167,7 +167,10 @@ type K07 struct{ A []int32 }
 type K08 struct{ A *K00 }
 type K09 struct{ A int16 }
 type K10 struct{ A uint16 }
-type K11 struct{ A string; B int32 }
+type K11 struct {
+	A string
+	B int32
+}
 type K12 struct{ A int32 }
 type K13 struct{ A float32 }
 type K14 struct{ A int8 }
@@ -175,31 +178,34 @@ type K15 struct{ A uint32 }
 type K16 struct{ A string }
 type K17 struct{ A int32 }
 type K18 struct{ A int64 }
-type K19 struct{ A string; B string }
+type K19 struct {
+	A string
+	B string
+}
 
 // ManyF holds one pointer per class: which classes appear, and in which order
 // their definitions are emitted, follows from which fields are non-nil.
 type ManyF struct {
-	P00 *K00
-	P01 *K01
-	P02 *K02
-	P03 *K03
-	P04 *K04
-	P05 *K05
-	P06 *K06
-	P07 *K07
-	P08 *K08
-	P09 *K09
-	P10 *K10
-	P11 *K11
-	P12 *K12
-	P13 *K13
-	P14 *K14
-	P15 *K15
-	P16 *K16
-	P17 *K17
-	P18 *K18
-	P19 *K19
+	P00  *K00
+	P01  *K01
+	P02  *K02
+	P03  *K03
+	P04  *K04
+	P05  *K05
+	P06  *K06
+	P07  *K07
+	P08  *K08
+	P09  *K09
+	P10  *K10
+	P11  *K11
+	P12  *K12
+	P13  *K13
+	P14  *K14
+	P15  *K15
+	P16  *K16
+	P17  *K17
+	P18  *K18
+	P19  *K19
 	Tail []*K19
 }
 
